@@ -600,6 +600,27 @@ fn sock_pair_of(fd: i32) -> Option<(SocketAddr, SocketAddr)> {
         Some((local, sockaddr_of(&ps)?))
     }
 }
+/// some descriptor of this process is a listening TCP socket bound to `addr`
+fn listening_here(addr: SocketAddr) -> bool {
+    let Ok(dir) = std::fs::read_dir("/proc/self/fd") else { return true };
+    for e in dir.flatten() {
+        let Some(fd) = e.file_name().to_str().and_then(|n| n.parse::<i32>().ok()) else { continue };
+        unsafe {
+            let mut ss: libc::sockaddr_storage = std::mem::zeroed();
+            let mut l = std::mem::size_of::<libc::sockaddr_storage>() as libc::socklen_t;
+            if libc::getsockname(fd, &mut ss as *mut _ as *mut libc::sockaddr, &mut l) != 0 || sockaddr_of(&ss) != Some(addr) {
+                continue;
+            }
+            let mut v: libc::c_int = 0;
+            let mut l = 4 as libc::socklen_t;
+            if libc::getsockopt(fd, libc::SOL_SOCKET, libc::SO_ACCEPTCONN, &mut v as *mut _ as *mut libc::c_void, &mut l) == 0 && v != 0 {
+                return true;
+            }
+        }
+    }
+    false
+}
+
 /// the descriptor (of any thread of this process) of the TCP connection local -> peer
 fn find_fd(local: SocketAddr, peer: SocketAddr) -> Option<i32> {
     let dir = std::fs::read_dir("/proc/self/fd").ok()?;
@@ -871,65 +892,136 @@ fn h2_pump(c: &mut H2Conn<TlsStream>, st: &mut H2Pump, timeout: Duration, quiet:
             }
             Some(f) => {
                 last = Instant::now();
-                if std::env::var("C10_DEBUG").is_ok() {
-                    eprintln!("h2pump frame ty={} flags={} sid={} len={} {:?}", f.ty, f.flags, f.sid, f.payload.len(),
-                        if f.ty == h2::GOAWAY || f.ty == h2::RST_STREAM { f.payload.clone() } else { vec![] });
-                }
-                match f.ty {
-                    h2::SETTINGS if f.flags & h2::FLAG_ACK == 0 => {
-                        c.send(&Frame::settings_ack());
-                    }
-                    h2::GOAWAY => st.goaway = true,
-                    h2::HEADERS => {
-                        let hs = c.hp.decode(&f.payload).unwrap_or_default();
-                        if let Some(x) = st.streams.get_mut(&f.sid) {
-                            for (k, v) in hs {
-                                if k == b":status" {
-                                    x.status = String::from_utf8_lossy(&v).to_string();
-                                } else if k == b"x-be" {
-                                    x.by = String::from_utf8_lossy(&v).to_string();
-                                }
-                            }
-                        }
-                    }
-                    h2::DATA => {
-                        let d = f.data_bytes().map(|d| d.to_vec()).unwrap_or_default();
-                        if let Some(x) = st.streams.get_mut(&f.sid) {
-                            if x.big {
-                                for (i, b) in d.iter().enumerate() {
-                                    if x.corrupt.is_none() && *b != pat(x.salt, x.got + i) {
-                                        x.corrupt = Some(x.got + i);
-                                    }
-                                }
-                            } else {
-                                x.small.extend_from_slice(&d);
-                            }
-                            x.got += d.len();
-                        }
-                        if st.grant && !f.payload.is_empty() {
-                            let l = f.payload.len() as u32;
-                            c.send(&Frame::window_update(0, l));
-                            if !f.end_stream() {
-                                c.send(&Frame::window_update(f.sid, l));
-                            }
-                        }
-                    }
-                    h2::RST_STREAM => {
-                        if let Some(x) = st.streams.get_mut(&f.sid) {
-                            x.rst = true;
-                        }
-                    }
-                    _ => {}
-                }
-                if f.end_stream() {
-                    if let Some(x) = st.streams.get_mut(&f.sid) {
-                        x.end = true;
-                    }
-                }
+                h2_handle(c, st, &f);
             }
         }
     }
 }
+
+fn h2_handle(c: &mut H2Conn<TlsStream>, st: &mut H2Pump, f: &Frame) {
+    if std::env::var("C10_DEBUG").is_ok() {
+        eprintln!("h2pump frame ty={} flags={} sid={} len={} {:?}", f.ty, f.flags, f.sid, f.payload.len(),
+            if f.ty == h2::GOAWAY || f.ty == h2::RST_STREAM { f.payload.clone() } else { vec![] });
+    }
+    match f.ty {
+        h2::SETTINGS if f.flags & h2::FLAG_ACK == 0 => {
+            c.send(&Frame::settings_ack());
+        }
+        h2::GOAWAY => st.goaway = true,
+        h2::HEADERS => {
+            let hs = c.hp.decode(&f.payload).unwrap_or_default();
+            if let Some(x) = st.streams.get_mut(&f.sid) {
+                for (k, v) in hs {
+                    if k == b":status" {
+                        x.status = String::from_utf8_lossy(&v).to_string();
+                    } else if k == b"x-be" {
+                        x.by = String::from_utf8_lossy(&v).to_string();
+                    }
+                }
+            }
+        }
+        h2::DATA => {
+            let d = f.data_bytes().map(|d| d.to_vec()).unwrap_or_default();
+            if let Some(x) = st.streams.get_mut(&f.sid) {
+                if x.big {
+                    for (i, b) in d.iter().enumerate() {
+                        if x.corrupt.is_none() && *b != pat(x.salt, x.got + i) {
+                            x.corrupt = Some(x.got + i);
+                        }
+                    }
+                } else {
+                    x.small.extend_from_slice(&d);
+                }
+                x.got += d.len();
+            }
+            if st.grant && !f.payload.is_empty() {
+                let l = f.payload.len() as u32;
+                c.send(&Frame::window_update(0, l));
+                if !f.end_stream() {
+                    c.send(&Frame::window_update(f.sid, l));
+                }
+            }
+        }
+        h2::RST_STREAM => {
+            if let Some(x) = st.streams.get_mut(&f.sid) {
+                x.rst = true;
+            }
+        }
+        _ => {}
+    }
+    if f.end_stream() {
+        if let Some(x) = st.streams.get_mut(&f.sid) {
+            x.end = true;
+        }
+    }
+}
+
+/// a reader that hands out at most `left` bytes of the socket
+struct Limited<'a> {
+    s: &'a mut TcpStream,
+    left: usize,
+}
+impl Read for Limited<'_> {
+    fn read(&mut self, buf: &mut [u8]) -> std::io::Result<usize> {
+        if self.left == 0 {
+            return Err(std::io::ErrorKind::WouldBlock.into());
+        }
+        let n = buf.len().min(self.left);
+        let r = self.s.read(&mut buf[..n])?;
+        self.left -= r;
+        Ok(r)
+    }
+}
+
+/// takes at most `max` bytes from the TCP socket (whatever the TLS record sizes) and handles the frames they
+/// complete; "" or "eof"
+fn h2_pump_raw(c: &mut H2Conn<TlsStream>, st: &mut H2Pump, max: usize) -> &'static str {
+    let mut end = "";
+    c.s.sock.set_read_timeout(Some(Duration::from_millis(10))).ok();
+    let mut left = max;
+    let mut tmp = vec![0u8; 65536];
+    'outer: while left > 0 {
+        let mut lim = Limited { s: &mut c.s.sock, left };
+        let r = c.s.conn.read_tls(&mut lim);
+        left = lim.left;
+        match r {
+            Ok(0) => {
+                end = "eof";
+                break;
+            }
+            Ok(_) => {
+                if c.s.conn.process_new_packets().is_err() {
+                    end = "eof";
+                    break;
+                }
+            }
+            Err(e) if e.kind() == std::io::ErrorKind::WouldBlock || e.kind() == std::io::ErrorKind::TimedOut => break,
+            Err(_) => {
+                end = "eof";
+                break;
+            }
+        }
+        // the plaintext must be taken out before the TLS layer accepts more
+        loop {
+            match c.s.conn.reader().read(&mut tmp) {
+                Ok(0) => {
+                    end = "eof";
+                    break 'outer;
+                }
+                Ok(n) => c.fb.push(&tmp[..n]),
+                Err(_) => break,
+            }
+        }
+    }
+    while let Some(f) = c.fb.next() {
+        h2_handle(c, st, &f);
+    }
+    if end == "eof" {
+        c.eof = true;
+    }
+    end
+}
+
 fn h2_big_outcome(x: &H2Rx, end: &str, n: usize) -> String {
     if !x.status.is_empty() && x.status != "200" {
         return format!("status{}", x.status);
@@ -959,6 +1051,10 @@ struct SlotSpec {
     /// H2 response stages: the large response is on the stream opened first (a small exchange, finished
     /// before the stop, is on the other stream of the connection)
     big_first: bool,
+    /// H2 tail: what keeps the tail in the worker. false: the client reads but grants no window (the tail
+    /// waits in the stream's buffer); true: windows wide open, but the client does not read its socket (the
+    /// tail waits in the stream's buffer and in the TLS layer, behind a full socket)
+    tcp_stall: bool,
 }
 
 #[derive(Clone, Debug)]
@@ -1220,10 +1316,35 @@ fn open_resp_slot(sp: &SlotSpec, r: usize, a: usize, addr: SocketAddr, be_addr: 
     }
 
     // ---- H2: the large response on one stream, a small finished exchange on the other
-    let tcp = TcpStream::connect_timeout(&addr, T_IO).map_err(|e| format!("connect: {e}"))?;
+    let tcp_stall = tail && sp.tcp_stall;
+    let tcp = if tcp_stall { small_client(addr, SMALL_RCVBUF, SMALL_MSS) } else { TcpStream::connect_timeout(&addr, T_IO) }.map_err(|e| format!("connect: {e}"))?;
     tcp.set_nodelay(true).ok();
+    let local = tcp.local_addr().map_err(|e| e.to_string())?;
+    let raw_fd = tcp.as_raw_fd();
+    let front = if tcp_stall { find_fd_within(addr, local, Duration::from_secs(3)) } else { None };
+    let sndbuf = front.map(|fd| {
+        let want: libc::c_int = FRONT_SNDBUF;
+        let mut v: libc::c_int = 0;
+        let mut l = 4 as libc::socklen_t;
+        unsafe {
+            if sock_pair_of(fd) == Some((addr, local)) {
+                libc::setsockopt(fd, libc::SOL_SOCKET, libc::SO_SNDBUF, &want as *const _ as *const libc::c_void, 4);
+                libc::getsockopt(fd, libc::SOL_SOCKET, libc::SO_SNDBUF, &mut v as *mut _ as *mut libc::c_void, &mut l);
+            }
+        }
+        v
+    });
+    if tcp_stall && front.is_none() {
+        return Err("the worker's socket towards the client was not found".into());
+    }
     let mut c = tls_over(tcp, T_IO).map_err(|e| format!("tls: {e}"))?;
-    if !c.client_preface(&[]) {
+    let okp = if tcp_stall {
+        // windows wide open: only the socket holds the response back
+        c.client_preface(&[(h2::S_INITIAL_WINDOW_SIZE, 1 << 20)]) && c.send(&Frame::window_update(0, 1 << 20))
+    } else {
+        c.client_preface(&[])
+    };
+    if !okp {
         return Err("preface".into());
     }
     let (big, small) = if sp.big_first { (1u32, 3u32) } else { (3u32, 1u32) };
@@ -1270,6 +1391,51 @@ fn open_resp_slot(sp: &SlotSpec, r: usize, a: usize, addr: SocketAddr, be_addr: 
         ctl.log(json!({"e": "RespPart", "r": r, "got": ctx.h2.streams[&big].got, "body": ctx.h2.streams[&big].got, "other_stream_done": small}));
         return Ok((Conn::H2(Box::new(c)), ctx));
     }
+    if tcp_stall {
+        // (b') The client stops reading its socket. What the worker can hold is its stream buffer, the TLS layer's
+        // buffer (64 KB) and the pipe; the client takes the response in small pieces of the TCP stream until the
+        // backend has been read to its end: from then on the tail is in the worker, behind a full socket.
+        let n = spec.n;
+        let pipe = || -> Option<usize> { Some(inq(raw_fd)? + probe_out(front, addr, local)?) };
+        let hold = buffer_size + 65_536 + 16_384;
+        let mut steps = 0usize;
+        let mut gone = false;
+        while !backend_done(req, &spec, be_addr) {
+            let got = ctx.h2.streams[&big].got;
+            let slow = got + hold + 65_536 >= n;
+            let end = h2_pump_raw(&mut c, &mut ctx.h2, if slow { 2048 } else { 16_384 });
+            steps += 1;
+            if end == "eof" || ctx.h2.streams[&big].end || ctx.h2.streams[&big].rst {
+                gone = true;
+                break;
+            }
+            if steps > 20_000 {
+                return Err("the backend never got to the end of its response".into());
+            }
+            if slow {
+                thread::sleep(Duration::from_millis(2));
+            }
+        }
+        // half of the time, let the stream buffer drain into the TLS layer: the tail is then held by the TLS
+        // layer alone (no stream has anything left to forward)
+        let drain = spec.n % 2 == 0;
+        if drain && !gone {
+            for _ in 0..14 {
+                let _ = h2_pump_raw(&mut c, &mut ctx.h2, 2048);
+                thread::sleep(Duration::from_millis(3));
+            }
+        }
+        let inpipe = settle(&pipe, Duration::from_secs(2));
+        let got = ctx.h2.streams[&big].got;
+        let held_est = inpipe.map(|q| n as i64 - got as i64 - q as i64);
+        ctx.delivered = inpipe.map(|q| got + q);
+        let st = resp_get(req);
+        ctx.info = json!({"stall": "tcp", "pipe": inpipe, "front_sndbuf": sndbuf, "steps": steps, "drained_stream_buffer": drain, "delivered": ctx.delivered,
+                          "held_est": held_est, "other_stream_done": small, "buffer_size": buffer_size, "rcvbuf": SMALL_RCVBUF, "mss": SMALL_MSS});
+        ctl.log(json!({"e": "RespPart", "r": r, "got": got, "body": got, "other_stream_done": small}));
+        ctl.log(json!({"e": "RespBackendDone", "r": r, "released": spec.close, "backend_failed": st.failed, "held_est": held_est}));
+        return Ok((Conn::H2(Box::new(c)), ctx));
+    }
     // (b) the client grants no window: what exceeds the initial windows stays in the worker
     let end = h2_pump(&mut c, &mut ctx.h2, T_IO, Some(Duration::from_millis(500)), &|st| st.streams[&big].got + st.streams[&small].got >= H2_WINDOW || st.streams[&big].end || st.streams[&big].rst);
     if !end.is_empty() {
@@ -1302,8 +1468,15 @@ fn slot_release_io(s: &mut Slot) -> bool {
         if rc.spec.pause_at > 0 {
             resp_update(&s.req, |st| st.gate = true);
         }
+        // a tail behind exhausted windows is released by one large grant (the worker cannot finish without it, so
+        // it reads it before it closes). Otherwise the client writes NOTHING while it reads the end of a response:
+        // a write that reaches the worker after it wrote the last byte and closed makes its kernel reset the
+        // connection and drop what it had not yet sent (the "TCP reset problem" of a close without lingering) -
+        // a hazard of every close, not of the stop, and not what these scenarios are about
         if let Some(Conn::H2(c)) = s.conn.as_mut() {
-            return c.send(&Frame::window_update(0, 1 << 20)) && c.send(&Frame::window_update(rc.sid, 1 << 20));
+            if s.spec.stage == "h2RespTail" && !s.spec.tcp_stall {
+                return c.send(&Frame::window_update(0, 1 << 20)) && c.send(&Frame::window_update(rc.sid, 1 << 20));
+            }
         }
         return true;
     }
@@ -1424,7 +1597,9 @@ fn setup_worker(w: &mut Worker, sc: &Scenario, addrs: &[SocketAddr], http_be: So
 }
 
 /// one short exchange against listener `a`; (connected, outcome, by)
-fn exchange(proto: &str, addr: SocketAddr, req: &str, ctr: &AtomicUsize, abort: &dyn Fn() -> bool) -> (bool, usize, usize, String, String, String) {
+/// `fds_here`: every listening socket of the scenario is at all times a descriptor of this process (plain soft
+/// stop; during a hand-over the sockets travel inside SCM messages, where no process holds a descriptor)
+fn exchange(proto: &str, addr: SocketAddr, req: &str, ctr: &AtomicUsize, abort: &dyn Fn() -> bool, fds_here: bool) -> (bool, usize, usize, String, String, String) {
     let lo = ctr.load(Ordering::SeqCst);
     let c = TcpStream::connect_timeout(&addr, T_IO);
     let hi = ctr.load(Ordering::SeqCst);
@@ -1432,6 +1607,12 @@ fn exchange(proto: &str, addr: SocketAddr, req: &str, ctr: &AtomicUsize, abort: 
         // a connect() to a closed local port of the ephemeral range can end up connected to itself (TCP
         // simultaneous open): nobody is listening there
         Ok(t) if t.local_addr().ok() == t.peer_addr().ok() => return (false, lo, hi, "SelfConnect".into(), "none".into(), "none".into()),
+        // ... or be taken by somebody else's socket: other harness processes probe for free ports by binding
+        // them for an instant. A listener that is not a descriptor of this process is none of the workers'.
+        Ok(_) if fds_here && !listening_here(addr) => {
+            let hi = ctr.load(Ordering::SeqCst);
+            return (false, lo, hi, "ForeignListener".into(), "none".into(), "none".into());
+        }
         Ok(t) => t,
         Err(e) => return (false, lo, hi, format!("{:?}", e.kind()), "none".into(), "none".into()),
     };
@@ -1489,7 +1670,8 @@ fn exchange(proto: &str, addr: SocketAddr, req: &str, ctr: &AtomicUsize, abort: 
     (true, lo, hi, "ok".into(), out, by)
 }
 
-fn hammer(run: usize, idx: usize, targets: Vec<(usize, &'static str, SocketAddr)>, ctr: Arc<AtomicUsize>, stop: Arc<AtomicBool>, old_dead: Arc<AtomicBool>, pause_ms: u64) -> Vec<Value> {
+#[allow(clippy::too_many_arguments)]
+fn hammer(run: usize, idx: usize, targets: Vec<(usize, &'static str, SocketAddr)>, ctr: Arc<AtomicUsize>, stop: Arc<AtomicBool>, old_dead: Arc<AtomicBool>, pause_ms: u64, fds_here: bool) -> Vec<Value> {
     let mut ev = Vec::new();
     let mut c = 0usize;
     if targets.is_empty() {
@@ -1502,7 +1684,7 @@ fn hammer(run: usize, idx: usize, targets: Vec<(usize, &'static str, SocketAddr)
         // an in-process "dead" worker thread leaves its connections open (a dead process would not): once the
         // scenario is over such an exchange is abandoned, not judged
         let abort = || stop.load(Ordering::SeqCst) && old_dead.load(Ordering::SeqCst);
-        let (connected, lo, hi, err, out, by) = exchange(proto, addr, &req, &ctr, &abort);
+        let (connected, lo, hi, err, out, by) = exchange(proto, addr, &req, &ctr, &abort, fds_here);
         if out == "aborted" {
             break;
         }
@@ -1585,7 +1767,7 @@ fn run_scenario(sc: &Scenario, be: &Backends, pause_ms: u64, jitter_ms: u64, see
     let cfg = json!({
         "mode": sc.mode, "order": sc.order, "crash": sc.crash, "deadline_s": sc.deadline_s,
         "addrs": sc.protos.iter().enumerate().map(|(i, p)| json!({"a": i + 1, "proto": p, "addr": addrs[i].to_string()})).collect::<Vec<_>>(),
-        "slots": sc.slots.iter().enumerate().map(|(i, s)| json!({"r": i + 1, "stage": s.stage, "partial": s.partial, "release": s.release, "resp": s.resp.as_ref().map(|x| x.json()), "big_first": s.big_first})).collect::<Vec<_>>(),
+        "slots": sc.slots.iter().enumerate().map(|(i, s)| json!({"r": i + 1, "stage": s.stage, "partial": s.partial, "release": s.release, "resp": s.resp.as_ref().map(|x| x.json()), "big_first": s.big_first, "tcp_stall": s.tcp_stall})).collect::<Vec<_>>(),
     });
     let fail = |why: String, ctl: &Ctl| json!({"run": sc.run, "cfg": cfg, "invalid": why, "ctl": ctl.ev, "ham": []});
 
@@ -1606,7 +1788,8 @@ fn run_scenario(sc: &Scenario, be: &Backends, pause_ms: u64, jitter_ms: u64, see
         let k = if t.is_empty() { 0 } else { h % t.len() };
         t.rotate_left(k);
         let (ctr2, stop2, dead2, run) = (ctr.clone(), stop.clone(), old_dead.clone(), sc.run);
-        hjobs.push(thread::spawn(move || hammer(run, h, t, ctr2, stop2, dead2, pause_ms)));
+        let fds_here = sc.mode == "softstop";
+        hjobs.push(thread::spawn(move || hammer(run, h, t, ctr2, stop2, dead2, pause_ms, fds_here)));
     }
 
     // ---- scripted slots, opened while the old worker serves
@@ -2071,7 +2254,7 @@ fn run_scenario(sc: &Scenario, be: &Backends, pause_ms: u64, jitter_ms: u64, see
     if let Some(_w) = new.as_ref() {
         for (a, proto, addr) in &targets {
             let req = format!("r{}p{}", sc.run, a);
-            let (connected, _lo, _hi, err, out, by) = exchange(proto, *addr, &req, &ctr, &|| false);
+            let (connected, _lo, _hi, err, out, by) = exchange(proto, *addr, &req, &ctr, &|| false, false);
             ctl.log(json!({"e": "Probe", "a": a, "ok": connected && out == "done", "by": by, "out": out, "err": err}));
         }
     }
@@ -2162,7 +2345,7 @@ const CRASHES: [&str; 5] = ["afterReturn", "afterReceived", "afterSuccStarted", 
 const LSETS: [&[&str]; 4] = [&["http", "https", "tcp"], &["http", "https"], &["https", "udp", "http"], &["tcp", "http", "https"]];
 
 fn slot(i: usize, release: &'static str) -> SlotSpec {
-    SlotSpec { stage: STAGES[i].0, partial: STAGES[i].1, release, resp: None, big_first: false }
+    SlotSpec { stage: STAGES[i].0, partial: STAGES[i].1, release, resp: None, big_first: false, tcp_stall: false }
 }
 
 /// a slot parked while its response is being delivered. Sizes: H1 tail 128-256 KiB (>= 8 x the worker's buffer,
@@ -2176,7 +2359,16 @@ fn rslot(stage: &'static str, framing: &'static str, close: bool, release: &'sta
         "respStreaming" => (rng.random_range(80_000..160_000usize), rng.random_range(24..48usize) * CHUNK),
         _ => (rng.random_range(40_000..60_000usize), rng.random_range(12..24usize) * CHUNK),
     };
-    SlotSpec { stage, partial: false, release, resp: Some(RespSpec { framing, close: close || framing == "eof", n, pause_at }), big_first }
+    SlotSpec { stage, partial: false, release, resp: Some(RespSpec { framing, close: close || framing == "eof", n, pause_at }), big_first, tcp_stall: false }
+}
+
+/// H2 tail behind a full socket instead of exhausted windows: a response much larger than what the worker can hold
+fn tcp_stalled(mut s: SlotSpec, rng: &mut StdRng) -> SlotSpec {
+    s.tcp_stall = true;
+    if let Some(r) = s.resp.as_mut() {
+        r.n = rng.random_range(196_608..327_680usize);
+    }
+    s
 }
 
 fn scenarios(thorough: bool, rng: &mut StdRng) -> Vec<Scenario> {
@@ -2261,7 +2453,11 @@ fn scenarios(thorough: bool, rng: &mut StdRng) -> Vec<Scenario> {
                         2 => rslot("h2RespTail", f2, c2, "afterStop", k % 8 < 4, rng),
                         _ => rslot(if k % 8 < 4 { "respStreaming" } else { "h2RespStreaming" }, f2, c2, "afterStop", true, rng),
                     };
-                    push(&mut v, mode, ord, LSETS[k % LSETS.len()], vec![rslot(stage, framing, *close, rel, k % 2 == 0, rng), other], "none", 0);
+                    let mut first = rslot(stage, framing, *close, rel, k % 2 == 0, rng);
+                    if stage == "h2RespTail" && f % 2 == 1 {
+                        first = tcp_stalled(first, rng);
+                    }
+                    push(&mut v, mode, ord, LSETS[k % LSETS.len()], vec![first, other], "none", 0);
                 }
             }
         }
@@ -2272,7 +2468,10 @@ fn scenarios(thorough: bool, rng: &mut StdRng) -> Vec<Scenario> {
         push(&mut v, "softstop", "stopFirst", LSETS[0], vec![rslot("respTail", "eof", true, "afterStop", false, rng), rslot("h2RespTail", "cl", true, "afterStop", b, rng)], "none", 0);
         push(&mut v, "handover", "stopFirst", LSETS[2], vec![rslot("respTail", "chunked", true, "afterStop", false, rng), slot(o, RELEASES[o % 3])], "none", 0);
         push(&mut v, "softstop", "stopFirst", LSETS[1], vec![rslot("respTail", "cl", false, "afterStop", false, rng), rslot("respStreaming", "cl", false, "afterStop", false, rng)], "none", 0);
-        push(&mut v, "handover", "startFirst", LSETS[3], vec![rslot("h2RespTail", "eof", true, "afterStop", !b, rng), rslot("respTail", "cl", true, "afterAll", false, rng)], "none", 0);
+        let t1 = tcp_stalled(rslot("h2RespTail", "eof", true, "afterStop", !b, rng), rng);
+        push(&mut v, "handover", "startFirst", LSETS[3], vec![t1, rslot("respTail", "cl", true, "afterAll", false, rng)], "none", 0);
+        let t2 = tcp_stalled(rslot("h2RespTail", "cl", true, "afterStop", b, rng), rng);
+        push(&mut v, "softstop", "stopFirst", LSETS[1], vec![t2, rslot("respTail", "chunked", true, "afterStop", false, rng)], "none", 0);
         push(&mut v, "softstop", "stopFirst", LSETS[0], vec![rslot("h2RespTail", "chunked", true, if std::env::var("C10_X").is_ok() { "beforeStop" } else { "afterStop" }, false, rng), rslot("h2RespStreaming", "cl", true, "afterStop", true, rng)], "none", 0);
         push(&mut v, "handover", "upgradeRs", LSETS[0], vec![rslot("respStreaming", "eof", true, "afterStop", false, rng), rslot("h2RespTail", "cl", true, "afterStop", true, rng)], "none", 0);
         push(&mut v, "handover", "stopFirst", LSETS[1], vec![rslot("h2RespStreaming", "chunked", true, "afterStop", false, rng), rslot("respTail", "eof", true, "afterAll", false, rng)], "none", 0);
